@@ -103,6 +103,11 @@ func c05Run(c *fw.Ctx, idx int) {
 	t := g.BuildFlat()
 	var text string
 	var err error
+	if c.R.Chance(1, 4) {
+		// an earlier call with other options (by this or any caller of the package)
+		// must leave no trace in a later plain call
+		codecNoise(c)
+	}
 	if c.Guard("panic", func() { text, err = wkt.Marshal(t) }) {
 		return
 	}
